@@ -2092,14 +2092,13 @@ def run(ctx):
         # its own stream: the product (kind of initial set) x (its class relation to the target) x (what follows), and
         # render class statements listing plain mix-in classes (the program family on them + the MRO / hierarchy probe)
         xrng = random.Random(rrng.getrandbits(64) ^ 0x3F)
-        if os.environ.get("VERIF_C16_TMP_NOSHAPE") != "1":
-          cases += list(INIT_CORPUS) + list(MIX_PROG_CORPUS) + list(NSMIX_CORPUS)
-          cases += [gen_initprod(xrng) for _ in range(3 if ctx.quick else 150)]
-          for i in range(12 if ctx.quick else 600):
+        cases += list(INIT_CORPUS) + list(MIX_PROG_CORPUS) + list(NSMIX_CORPUS)
+        cases += [gen_initprod(xrng) for _ in range(3 if ctx.quick else 150)]
+        for i in range(12 if ctx.quick else 600):
             c = gen_prog(xrng, 12 if i % 3 else 6)
             c["mix"] = gen_mix(xrng, c["par"])
             cases.append(c)
-          cases += [gen_nsmix(xrng) for _ in range(10 if ctx.quick else 400)]
+        cases += [gen_nsmix(xrng) for _ in range(10 if ctx.quick else 400)]
         if os.environ.get("VERIF_C16_INIT_FAMILY") == "1":
             # NOT part of the registered check: the initial-set argument with virtual subclassing (see
             # pending_fixes/C16_virtual_subclass_init_render_args.*)
@@ -2435,7 +2434,9 @@ def run(ctx):
                      "RArgsRel.x_eq / x_hash HashFields / xset_* (==/hash read class + fields only) == real ==/hash/dict-set membership of instances "
                      "of namespace subclasses overriding as_dict()/get_fields()/__repr__ and of the sets built from them; "
                      "RArgsRel.u_accept ByHierarchy / u_rule (ancestors by inheritance) and RArgsRel.issubclass == real constructor routes / issubclass "
-                     "on forests with abc registrations",
+                     "on forests with abc registrations; "
+                     "RArgsShape.mro / held SkipNonRender (the MRO walk of RenderableMeta) and RArgsShape.in_hierarchy (ancestors by inheritance) == real "
+                     "__mro__ / default sets / constructor outcomes of render classes whose statements list plain mix-in classes",
         "evaluations": len(cases),
         "distinct_nontrivial": len(distinct) + len(ndistinct) + len(sdistinct) + len(idistinct) + len(rdistinct) + len(xdistinct),
         "rule": "corpus + generated programs: forest of 2-8 render classes (depth <= 4, branching <= 3, chains / bushy / random), "
@@ -2481,7 +2482,17 @@ def run(ctx):
                 "owner C) with a C namespace through RenderArgs(T, ns), RenderArgs(T, None, ns), RenderArgs(T, init, ns), ns.to_render_args(T), "
                 "RenderArgs(T).update(ns): all five routes for the first registration-only pair, two routes for the next two, 3 real-ancestor pairs, "
                 "2 unrelated pairs; observed: outcome / error, classes the accepted set holds, it holds the given namespace and the base set's "
-                "elsewhere, issubclass(T, C), the default sets of all classes afterwards.  Non-trivial: some probe's classes related by registration only.",
+                "elsewhere, issubclass(T, C), the default sets of all classes afterwards.  Non-trivial: some probe's classes related by registration only.  "
+                "INITIAL SET x WHAT FOLLOWS (type prog): a corpus on the forest A <- B <- E, A <- C, D (+ one with gap classes) and generated forests: "
+                "the initial sets None, BASE_RENDER_ARGS and, for classes in every relation to the target (same / ancestor / descendant / sibling / "
+                "unrelated), the interned default set, an equal set that is not interned and a non-default set, each passed to RenderArgs(target, init, "
+                "*follow) with no namespace / compatible namespaces / an incompatible namespace and to a second RenderArgs type; judged like every "
+                "program (histogram initial_set(...) counts the product over ALL programs).  MIX-INS: programs (type prog with 'mix', same generator, "
+                "<= 12 operations) on forests where 1..all classes list 1-2 plain mix-in classes before the render base / after everything / between the "
+                "render base and a second, redundant render base (a proper ancestor), and hierarchy probes (type nsmix: forests of 2-5 classes, >= 2 "
+                "namespace owners; observed for every class: __mro__, the classes RenderArgs(T) holds, the outcome of RenderArgs(T, A.Args(7)) for every "
+                "owner A).  Non-trivial: a constructor call whose initial set is BASE or an interned default set of a sibling/unrelated class followed by "
+                "namespaces; a program / probe on classes with mix-ins (probe: a namespace-owning ancestor stands behind a mix-in in the MRO).",
         "samples": [describe(c) for c in (progs[:1] + progs[len(CORPUS):len(CORPUS) + 3])] + [describe(c) for c in cases if c["type"] == "stmt"][:2]
                    + [describe(c) for c in cases if c["type"] == "nsprog"][len(NS_CORPUS):len(NS_CORPUS) + 2],
         "histogram": hist,
@@ -2515,6 +2526,9 @@ def run(ctx):
             "no NaN-like field values in that family; abc: issubclass as ABCMeta.__subclasscheck__ computes it from MRO, registry and subclasses "
             "(no __subclasshook__), registrations made before the first issubclass call; the init_render_args argument with virtual subclassing is "
             "NOT part of the check (pending_fixes/C16_virtual_subclass_init_render_args.*; VERIF_C16_INIT_FAMILY=1 adds the family)",
+            "mix-ins: fresh plain subclasses of object, one per position of a class statement (not shared between statements, no bases or metaclass of "
+            "their own); one DIRECT render base per class plus, for the 'between' position, a second redundant render base that is a proper ancestor "
+            "of the first; the model's MRO for such statements is validated against the real __mro__ (not derived from a C3 model)",
         ],
         "trusted": [
             "impl driver: public API only (constructors, update, convert, |, +, to_render_args, iteration, item access, ==, hash, in) "
